@@ -42,6 +42,16 @@ impl_h!(g::bare_s::s_server::S);
 impl_h!(g::a_b_s::s_server::S);
 impl_h!(g::a_lower::s_server::s);
 
+/// A request body whose one DATA frame has arrived and whose end has not: pending for good after the frame.
+pub struct OpenBody(Option<Bytes>);
+impl http_body::Body for OpenBody {
+    type Data = Bytes;
+    type Error = Status;
+    fn poll_frame(mut self: std::pin::Pin<&mut Self>, _cx: &mut std::task::Context<'_>) -> std::task::Poll<Option<Result<http_body::Frame<Bytes>, Status>>> {
+        match self.0.take() { Some(b) => std::task::Poll::Ready(Some(Ok(http_body::Frame::data(b)))), None => std::task::Poll::Pending }
+    }
+}
+
 /// An interceptor that hands back a freshly built request (metadata copied, extensions not): legal, and it must not change
 /// which method a path names.
 fn rebuild(r: tonic::Request<()>) -> Result<tonic::Request<()>, tonic::Status> { let mut n = tonic::Request::new(()); *n.metadata_mut() = r.metadata().clone(); Ok(n) }
@@ -74,7 +84,8 @@ fn run_via_server(stim: &Value, rec: &Rec) {
     rec.ev(json!({"e":"sent","uri_ok":true,"path_seen":str_json(uri.path())}));
     let plan = stim["plan"].as_array().cloned().unwrap_or_default();
     let log = rec.clone();
-    block_on(async move {
+    let open = stim["body"].as_str() == Some("open");
+    let run = async move {
         let mut srv = tonic::transport::Server::builder();
         let mut router: Option<tonic::transport::server::Router> = None;
         macro_rules! reg { ($how:expr, $svc:expr, $ty:ty) => {{
@@ -113,8 +124,8 @@ fn run_via_server(stim: &Value, rec: &Rec) {
         let req = http::Request::builder().method("POST").uri(full).header("content-type", "application/grpc").header("te", "trailers").body(()).unwrap();
         let r: Result<(), String> = async {
             let (resp, mut send) = client.send_request(req, false).map_err(|e| e.to_string())?;
-            send.send_data(Bytes::from_static(&[0, 0, 0, 0, 1, 7]), true).map_err(|e| e.to_string())?;
-            let resp = resp.await.map_err(|e| e.to_string())?;
+            send.send_data(Bytes::from_static(&[0, 0, 0, 0, 1, 7]), !open).map_err(|e| e.to_string())?;
+            let resp = if open { match tokio::time::timeout(std::time::Duration::from_secs(5), resp).await { Ok(r) => r, Err(_) => { log.ev(json!({"e":"no_answer"})); return Ok(()); } } } else { resp.await }.map_err(|e| e.to_string())?;
             let (p, mut body) = resp.into_parts();
             let mut data = vec![];
             while let Some(ch) = body.data().await { let ch = ch.map_err(|e| e.to_string())?; let _ = body.flow_control().release_capacity(ch.len()); data.extend_from_slice(&ch); }
@@ -124,7 +135,8 @@ fn run_via_server(stim: &Value, rec: &Rec) {
         }.await;
         if let Err(m) = r { log.ev(json!({"e":"h2_err","msg":m})); }
         server.abort(); connt.abort();
-    });
+    };
+    if open { block_on_paused(run) } else { block_on(run) }
 }
 
 pub fn run(stim: &Value, rec: &Rec) {
@@ -135,18 +147,24 @@ pub fn run(stim: &Value, rec: &Rec) {
     let routes = build_routes_opt(&reg, rec, stim["via"].as_str() == Some("builder"), stim["intercepted"].as_bool().unwrap_or(path.len() % 5 == 2));
     let uri = match http::Uri::try_from(&path[..]) { Ok(u) => u, Err(_) => { rec.ev(json!({"e":"sent","uri_ok":false})); return; } };
     rec.ev(json!({"e":"sent","uri_ok":true,"path_seen":str_json(uri.path())}));
+    // body "open": the request's message has arrived but its body has not ended (a caller that has not half-closed yet, as a streaming
+    // caller waiting for the server would): a path that names no registered method is answered all the same
+    let open = stim["body"].as_str() == Some("open");
+    let body = if open { Body::new(OpenBody(Some(Bytes::from_static(&[0, 0, 0, 0, 1, 7])))) } else { Body::new(http_body_util::Full::new(Bytes::from_static(&[0, 0, 0, 0, 1, 7]))) };
     let req = http::Request::builder().method("POST").version(http::Version::HTTP_2).uri(uri)
         .header("content-type", "application/grpc").header("te", "trailers")
-        .body(Body::new(http_body_util::Full::new(Bytes::from_static(&[0, 0, 0, 0, 1, 7])))).unwrap();
-    block_on(async {
+        .body(body).unwrap();
+    let run = async {
         // prepare() is documented as an optional optimisation: two thirds of the tables are used without it
         let mut svc = if stim["prepare"].as_bool().unwrap_or(path.len() % 3 == 0) { routes.prepare() } else { routes };
-        let resp = ServiceExt::<http::Request<Body>>::ready(&mut svc).await.unwrap().call(req).await.unwrap();
+        let fut = ServiceExt::<http::Request<Body>>::ready(&mut svc).await.unwrap().call(req);
+        let resp = if open { match tokio::time::timeout(std::time::Duration::from_secs(5), fut).await { Ok(r) => r.unwrap(), Err(_) => { rec.ev(json!({"e":"no_answer"})); return; } } } else { fut.await.unwrap() };
         let (p, body) = resp.into_parts();
         let mut data = vec![]; let mut trailers = json!([]);
         let mut body = std::pin::pin!(body);
         while let Some(f) = body.frame().await { match f { Ok(f) => { if let Some(d) = f.data_ref() { data.extend_from_slice(d); } else if let Some(t) = f.trailers_ref() { trailers = headers_json(t); } } Err(_) => break } }
         rec.ev(json!({"e":"resp","status":p.status.as_u16(),"list":headers_json(&p.headers),"body":bytes_json(&data),"trailers":trailers}));
-    });
+    };
+    if open { block_on_paused(run) } else { block_on(run) }
     let _ = RawCodec::default();
 }
